@@ -15,7 +15,10 @@ import (
 
 	"google.golang.org/protobuf/encoding/protowire"
 	"google.golang.org/protobuf/proto"
+	"google.golang.org/protobuf/reflect/protodesc"
 	"google.golang.org/protobuf/reflect/protoreflect"
+	"google.golang.org/protobuf/reflect/protoregistry"
+	"google.golang.org/protobuf/types/descriptorpb"
 	"google.golang.org/protobuf/types/dynamicpb"
 
 	"csverif/internal/prng"
@@ -166,6 +169,74 @@ func nilOneListElement(r *prng.Rng, m interface{}, ref *dynamicpb.Message) bool 
 }
 
 // ---------- C04 / C05 / C17(marshal side) ----------
+
+// foreignExtensionCase: an extension of the message that is declared in ANOTHER .proto file than the message itself (the
+// ordinary way third parties extend a base message) is set through the runtime's API; the generated Marshal must carry
+// it like the runtime's own Marshal does (finding B33: it only knows the extensions declared in the message's own file).
+func (rn *runner) foreignExtensionCase(t *Target, name string) {
+	if t.Runtime != "v2" && t.Runtime != "v1" {
+		return
+	}
+	md := t.desc(name)
+	if md.ExtensionRanges().Len() == 0 || hasRequired(md) {
+		return
+	}
+	used := map[protoreflect.FieldNumber]bool{}
+	for _, x := range knownExtensions(md) {
+		used[x.Number()] = true
+	}
+	rg := md.ExtensionRanges().Get(0)
+	num := protoreflect.FieldNumber(0)
+	for c := rg[0]; c < rg[1] && c < rg[0]+200; c++ {
+		if !used[c] && md.Fields().ByNumber(c) == nil {
+			num = c
+			break
+		}
+	}
+	full, err := protoregistry.GlobalFiles.FindDescriptorByName(md.FullName())
+	if num == 0 || err != nil {
+		return
+	}
+	fdp := &descriptorpb.FileDescriptorProto{Name: proto.String("csverif_other_team_" + strings.ReplaceAll(string(md.FullName()), ".", "_") + ".proto"),
+		Package: proto.String("csverif.otherteam"), Syntax: proto.String("proto2"), Dependency: []string{full.ParentFile().Path()},
+		Extension: []*descriptorpb.FieldDescriptorProto{{Name: proto.String("tenant"), Number: proto.Int32(int32(num)), Type: descriptorpb.FieldDescriptorProto_TYPE_STRING.Enum(),
+			Label: descriptorpb.FieldDescriptorProto_LABEL_OPTIONAL.Enum(), Extendee: proto.String("." + string(md.FullName()))}}}
+	fd, err := protodesc.NewFile(fdp, protoregistry.GlobalFiles)
+	if err != nil {
+		return
+	}
+	xt := dynamicpb.NewExtensionType(fd.Extensions().Get(0))
+	f, ok := t.Messages[name]
+	if !ok {
+		return
+	}
+	m, ok := f.New().(proto.Message)
+	if !ok {
+		return
+	}
+	desc := map[string]interface{}{"type": t.where(name), "case": "an extension declared in another .proto file, set through the runtime", "extension": fmt.Sprintf("extend %s { optional string tenant = %d; }", md.FullName(), num)}
+	var b, want []byte
+	var merr error
+	if p := safeCall(func() {
+		proto.SetExtension(m, xt, "acme")
+		want, _ = proto.Marshal(m)
+		b, merr = m.(FM).Marshal()
+	}); p != "" || merr != nil {
+		Violation("C05", "marshal", "marshal/foreign-extension-panic", "Marshal of a message carrying an extension declared in another file failed", desc, "bytes", fmt.Sprint(p, merr))
+		return
+	}
+	rt := &protoregistry.Types{}
+	rt.RegisterExtension(xt)
+	got, ref := dynamicpb.NewMessage(md), dynamicpb.NewMessage(md)
+	e1 := proto.UnmarshalOptions{Resolver: rt}.Unmarshal(b, got)
+	e2 := proto.UnmarshalOptions{Resolver: rt}.Unmarshal(want, ref)
+	outcome := "ok"
+	if e1 != nil || e2 != nil || !proto.Equal(got, ref) {
+		outcome = "dropped"
+		Violation("C05", "marshal", "marshal/extension-declared-in-another-file-dropped", "the generated Marshal drops an extension that is set on the message but declared in another .proto file than the message (the runtime's own Marshal writes it)", desc, hx(want), hx(b))
+	}
+	Count("marshal", fmt.Sprint(desc), "foreign-file-extension/"+outcome, len(b), true)
+}
 
 func (rn *runner) marshalCase(t *Target, name string, ref *dynamicpb.Message, label string) {
 	md := t.desc(name)
@@ -456,6 +527,9 @@ func (rn *runner) runMarshal(ts []*Target, n int) {
 		for _, name := range sortedNames(t.Messages) {
 			rn.singleFieldCases(t, name)
 			md := t.desc(name)
+			if rn.prop == "C05" {
+				rn.foreignExtensionCase(t, name)
+			}
 			for i := 0; i < n; i++ {
 				ref := randMessage(rn.r, md, genOpts{requiredAlways: rn.prop != "C17", exts: t.extTypes()})
 				label := "random"
@@ -463,7 +537,7 @@ func (rn *runner) runMarshal(ts []*Target, n int) {
 					// a message that carries unknown fields (read from a newer writer): they count and are written
 					var unk []rec
 					for k := 1 + rn.r.Intn(2); k > 0; k-- {
-						unk = append(unk, randUnknown(rn.r, md))
+						unk = append(unk, randUnknown(rn.r, md, false))
 					}
 					ref.SetUnknown(emitRecs(unk))
 					label = "random+unknown"
@@ -638,13 +712,34 @@ func splitPacked(fd protoreflect.FieldDescriptor, payload []byte) [][]byte {
 
 var unknownNumbers = []protowire.Number{900, 19000 - 1, 1 << 21, 1 << 26, 1<<29 - 1}
 
-func randUnknown(r *prng.Rng, md protoreflect.MessageDescriptor) rec {
+func randUnknown(r *prng.Rng, md protoreflect.MessageDescriptor, inRange bool) rec {
 	// a number the schema declares (field or extension range) is not "unknown": a conforming writer
 	// never emits it with a foreign wire type
 	free := func(n protowire.Number) bool {
 		return md == nil || (md.Fields().ByNumber(n) == nil && !md.ExtensionRanges().Has(n))
 	}
 	num := protowire.Number(0)
+	// … but a number INSIDE an extension range that no extension of the file uses is exactly what a program built
+	// against an older schema receives when a newer one declares another extension: unknown to the generated code and
+	// to the reference alike (its resolver knows the file's extensions only), to be retained like any unknown field
+	// (only in wire inputs handed to the generated Unmarshal: a Go message POPULATED through its runtime's own decoder holds
+	// such a field in the runtime's extension store, which is finding B33's territory)
+	if inRange && md != nil && md.ExtensionRanges().Len() > 0 && r.Chance(1, 3) {
+		used := map[protowire.Number]bool{}
+		for _, x := range knownExtensions(md) {
+			used[x.Number()] = true
+		}
+		rg := md.ExtensionRanges().Get(r.Intn(md.ExtensionRanges().Len()))
+		for _, c := range []protowire.Number{rg[0], rg[1] - 1, rg[0] + 1, rg[1] - 2, rg[0] + 57, (rg[0] + rg[1]) / 2} {
+			if c >= rg[0] && c < rg[1] && !used[c] && md.Fields().ByNumber(c) == nil {
+				num = c
+				break
+			}
+		}
+	}
+	if num != 0 {
+		return randUnknownAt(r, num)
+	}
 	start := r.Intn(len(unknownNumbers))
 	for i := range unknownNumbers {
 		if c := unknownNumbers[(start+i)%len(unknownNumbers)]; free(c) {
@@ -660,6 +755,11 @@ func randUnknown(r *prng.Rng, md protoreflect.MessageDescriptor) rec {
 	if num == 0 {
 		num = 18999 // every number is declared: cannot happen with the corpus schemas
 	}
+	return randUnknownAt(r, num)
+}
+
+// randUnknownAt: a field of a random wire type at the given number
+func randUnknownAt(r *prng.Rng, num protowire.Number) rec {
 	switch r.Intn(4) {
 	case 0:
 		return rec{num, protowire.VarintType, protowire.AppendVarint(nil, r.U64Interesting())}
@@ -813,7 +913,7 @@ func variant(r *prng.Rng, md protoreflect.MessageDescriptor, b []byte, depth int
 	if withUnknown {
 		for n := r.Intn(3); n > 0; n-- {
 			pos := r.Intn(len(out) + 1)
-			out = append(out[:pos:pos], append([]rec{randUnknown(r, md)}, out[pos:]...)...)
+			out = append(out[:pos:pos], append([]rec{randUnknown(r, md, true)}, out[pos:]...)...)
 			applied = append(applied, "unknown-field")
 		}
 	}
@@ -1502,7 +1602,7 @@ func (rn *runner) history(t *Target, name string, steps int) {
 			what := "other"
 			if rn.r.Bool() {
 				// … written by a newer schema: carries a field this schema does not define
-				other = append(other, emitRecs([]rec{randUnknown(rn.r, md)})...)
+				other = append(other, emitRecs([]rec{randUnknown(rn.r, md, false)})...)
 				what = "other+unknown field"
 			}
 			switch rn.r.Intn(3) {
